@@ -10,7 +10,7 @@ import (
 )
 
 // Profile names a scheduling regime for the generated prefix.
-var Profiles = []string{"near-sync", "random", "timeout-heavy", "partition", "equivocate", "late-commit", "gate", "gate", "laggard", "two-faced"}
+var Profiles = []string{"near-sync", "random", "timeout-heavy", "partition", "equivocate", "late-commit", "gate", "gate", "laggard", "two-faced", "hijack"}
 
 type RunOpts struct {
 	Profile    string
@@ -32,6 +32,8 @@ func profileWeights(p string) weights {
 		return weights{deliver: 12, alarm: 3, dup: 1, drop: 1, byz: 10, start: 4}
 	case "partition", "late-commit":
 		return weights{deliver: 16, alarm: 5, dup: 1, drop: 1, byz: 3, start: 4}
+	case "hijack":
+		return weights{deliver: 30, alarm: 4, dup: 1, drop: 0, byz: 8, start: 10}
 	case "gate", "laggard":
 		return weights{deliver: 30, alarm: 3, dup: 1, drop: 0, byz: 2, start: 8}
 	case "two-faced":
@@ -58,6 +60,26 @@ func (w *World) held(profile string, p *Pending, step, healAt int, group map[int
 		return ok && group[from] != group[p.To]
 	case "late-commit":
 		return p.Msg.Vote.Phase == gpbft.COMMIT_PHASE && p.Msg.Vote.Round == holdRound && p.To%2 == 0
+	case "hijack":
+		// Rounds end with COMMIT bottom as under "gate", but no honest node gets to see the
+		// COMMIT quorum of the hold round or anybody else's CONVERGE of the next one before the
+		// coalition has told it: the coalition is the first to carry the evidence.
+		if p.FromByz {
+			return false
+		}
+		from, ok := w.ByIdx[p.Msg.Sender]
+		if !ok || from == p.To {
+			return false
+		}
+		switch p.Msg.Vote.Phase {
+		case gpbft.QUALITY_PHASE:
+			return group[p.To] == 1
+		case gpbft.COMMIT_PHASE:
+			return p.Msg.Vote.Round == holdRound
+		case gpbft.CONVERGE_PHASE:
+			return p.Msg.Vote.Round == holdRound+1
+		}
+		return false
 	case "laggard":
 		// node 0 hears nothing until the heal point while the others run the gate schedule
 		if p.To == 0 {
@@ -113,18 +135,37 @@ func (w *World) RunPrefix(t *rapid.T, o RunOpts) {
 		wt.byz = 0
 	}
 	group := w.Group
+	hijackOff := 0
+	if o.Profile == "hijack" {
+		hijackOff = rapid.IntRange(0, 1).Draw(t, "hijackoff")
+	}
 	for i := range w.Nodes {
 		if _, ok := group[i]; !ok {
+			if o.Profile == "hijack" {
+				// alternate sides, so that neither side can reach a quorum on its own
+				group[i] = (i + hijackOff) % 2
+				continue
+			}
 			group[i] = rapid.IntRange(0, 1).Draw(t, "group")
 		}
 	}
 	healAt := o.MaxSteps * rapid.IntRange(0, 4).Draw(t, "healquarters") / 4
 	holdRound := uint64(rapid.IntRange(0, 2).Draw(t, "holdround"))
+	if o.Profile == "hijack" && rapid.IntRange(0, 3).Draw(t, "hijackround0") > 0 {
+		holdRound = 0
+	}
+	w.HoldRound = holdRound
+	if o.Profile == "hijack" && healAt < o.MaxSteps/2 {
+		healAt = o.MaxSteps / 2
+	}
 	// rapid's integer generators favour small values; the prefix length is drawn in
 	// quarters of the budget so that long adversarial prefixes are the normal case
 	steps := o.MaxSteps * rapid.IntRange(0, 4).Draw(t, "prefixquarters") / 4
 	if steps > 0 {
 		steps -= rapid.IntRange(0, min(steps, o.MaxSteps/8)).Draw(t, "prefixtrim")
+	}
+	if o.Profile == "hijack" && steps < o.MaxSteps/2 {
+		steps = o.MaxSteps / 2
 	}
 	// at least one node starts at once
 	w.Start(rapid.IntRange(0, len(w.Nodes)-1).Draw(t, "firststart"))
@@ -217,6 +258,13 @@ func (w *World) RunPrefix(t *rapid.T, o RunOpts) {
 // ByzAction lets the coalition emit one generated message.
 func (w *World) ByzAction(t *rapid.T, profile string) {
 	cfg := w.Cfg
+	if profile == "hijack" && rapid.IntRange(0, 4).Draw(t, "byzscript") > 0 && w.byzHijack() {
+		return
+	}
+	if rapid.IntRange(0, 15).Draw(t, "byzflood") == 0 {
+		w.byzForgedFlood(t)
+		return
+	}
 	id := cfg.Byz[rapid.IntRange(0, len(cfg.Byz)-1).Draw(t, "byzid")]
 	// target instance: that of some honest node, or the next one
 	var insts []uint64
@@ -308,6 +356,108 @@ func (w *World) ByzAction(t *rapid.T, profile string) {
 		dests = []int{rapid.IntRange(0, len(w.Nodes)-1).Draw(t, "byzdest1")}
 	}
 	w.SendByz(m, dests)
+}
+
+// byzHijack is the scripted part of the "hijack" profile: as soon as the evidence holds a
+// strong quorum of COMMIT for bottom in the hold round, every coalition member sends a
+// CONVERGE and a PREPARE of the next round for a chain nobody honest proposed, justified by
+// that (genuine) quorum; once the evidence holds a PREPARE quorum for that chain, a COMMIT.
+// Each stage happens once per instance; false if nothing could be done.
+func (w *World) byzHijack() bool {
+	cfg := w.Cfg
+	inst := uint64(0)
+	found := false
+	for _, n := range w.Nodes {
+		if n.Started {
+			if pi := n.P.Progress().ID; cfg.Inst(pi) != nil && (!found || pi < inst) {
+				inst, found = pi, true
+			}
+		}
+	}
+	if !found {
+		return false
+	}
+	var base *gpbft.TipSet
+	for _, n := range w.Nodes {
+		if b := n.Bases[inst]; b != nil {
+			base = b
+		}
+	}
+	if base == nil && inst == cfg.First {
+		base = cfg.Root
+	}
+	if base == nil {
+		return false
+	}
+	if w.hijacked == nil {
+		w.hijacked = map[[2]uint64]bool{}
+	}
+	evil := PathChain(base, []int{5})
+	hr := w.HoldRound
+	var all []int
+	for i := range w.Nodes {
+		all = append(all, i)
+	}
+	if j, ok := w.ByzJustify(inst, hr+1, gpbft.PREPARE_PHASE, evil, false); ok && j != nil && !w.hijacked[[2]uint64{inst, 1}] {
+		w.hijacked[[2]uint64{inst, 1}] = true
+		for _, id := range cfg.Byz {
+			w.SendByz(w.ByzMessage(id, inst, hr+1, gpbft.COMMIT_PHASE, evil, j), all)
+		}
+		w.Stats.HijackCommits++
+		return true
+	}
+	if j, ok := w.ByzJustify(inst, hr, gpbft.COMMIT_PHASE, nil, false); ok && j != nil && !w.hijacked[[2]uint64{inst, 0}] {
+		w.hijacked[[2]uint64{inst, 0}] = true
+		for _, id := range cfg.Byz {
+			w.SendByz(w.ByzMessage(id, inst, hr+1, gpbft.CONVERGE_PHASE, evil, j), all)
+			w.SendByz(w.ByzMessage(id, inst, hr+1, gpbft.PREPARE_PHASE, evil, j), all)
+		}
+		w.Stats.HijackConverges++
+		return true
+	}
+	return false
+}
+
+// byzForgedFlood: one coalition member sends a victim a DECIDE for a chain nobody honest
+// proposed in the name of every table member (signed with its own key, justified by the
+// coalition's signatures alone), each copy up to three times. Every one of them is invalid;
+// repetition must not change that.
+func (w *World) byzForgedFlood(t *rapid.T) {
+	cfg := w.Cfg
+	victim := rapid.IntRange(0, len(w.Nodes)-1).Draw(t, "floodvictim")
+	n := w.Nodes[victim]
+	if !n.Started {
+		return
+	}
+	inst := n.P.Progress().ID
+	ic := cfg.Inst(inst)
+	if ic == nil {
+		return
+	}
+	base := n.Bases[inst]
+	if base == nil && inst == cfg.First {
+		base = cfg.Root
+	}
+	if base == nil {
+		return
+	}
+	evil := PathChain(base, []int{5})
+	j, quorum := w.ByzJustify(inst, 0, gpbft.COMMIT_PHASE, evil, true)
+	if j == nil || quorum {
+		return
+	}
+	reps := rapid.IntRange(1, 3).Draw(t, "floodreps")
+	for _, e := range ic.Table {
+		m := w.ByzMessage(cfg.Byz[0], inst, 0, gpbft.DECIDE_PHASE, evil, j)
+		if m == nil {
+			return
+		}
+		m.Sender = e.ID
+		for r := 0; r < reps; r++ {
+			w.SendByz(m, []int{victim})
+		}
+	}
+	w.Stats.ForgedFloods++
 }
 
 func (w *World) byzPrevRoundJustification(t *rapid.T, inst, round uint64, value *gpbft.ECChain, under bool) (*gpbft.Justification, bool) {
